@@ -210,10 +210,12 @@ package sqlite
 //@ func sqlite.DB.MTU
 //@   params db ctx
 //@   local err = call:sqlite.DB.query#1
+//@   local mtu = addr:Alloc#1
 //@   props C18 C08 C10(sweep)
 //@   sweep bounds,panic,make,nilmem
 //@   callsites sessionID 1
 //@   assume sessok(db) != True()
+//@   ensures @value ? err == nil ==> result0 == mtu.V && mtu.Valid
 //@   ensures @session err == nil ==> sessok(db) == True()
 //@ func sqlite.DB.RvInfo
 //@   params db ctx
